@@ -588,11 +588,11 @@ func TestVerifC21DB(t *testing.T) {
 		"while the primary / secondary WAL directory is stalled at seeded moments and crash clones are taken by the client and by a concurrent crasher; " +
 		"non-trivial = the real failoverMonitor switched directories at least once; distinct key = case + switch count + clones + recovered batches")
 	r.Assume("crash model = vfs.MemFS.CrashClone; monitor timing is real time and only affects how many switches happen")
-	n := vcommon.Scale(6, 160)
+	n := vcommon.Scale(4, 120)
 	r.Cases(n, func(i int, rng *rand.Rand) {
 		fmvs := []uint64{uint64(pebble.FormatNewest), uint64(pebble.FormatNewest), uint64(pebble.FormatWALSyncChunks) - 1}
 		p := params{
-			Batches:      120 + rng.IntN(240),
+			Batches:      100 + rng.IntN(180),
 			SyncProb:     []float64{1, 0.5, 0.5, 0.1}[rng.IntN(4)],
 			MemTableKB:   []int{64, 128, 256}[rng.IntN(3)],
 			FMV:          fmvs[rng.IntN(len(fmvs))],
